@@ -329,6 +329,10 @@ def _write_replay(prop, rj, name, ob, seed):
     if ob.get("model") is not None:
         res = native_replay(rj["name"], ob["model"])
         reproduced = bool(res.get("reproduced"))
+        # if the obligation can be evaluated natively, it is this obligation that has to fail
+        if reproduced and name in res.get("checked_names", []) and name not in res.get("failed", []):
+            reproduced = False
+            res["note"] = "other obligations failed natively, but not the one the verifier refuted"
     if not reproduced:
         res2 = native_replay(rj["name"], None, search_seed=seed)
         if res2.get("reproduced"):
